@@ -85,7 +85,7 @@ func slotWorkloads(c *chk.Ctx, label string, n int) []*slotJob {
 func c06(args []string) {
 	c := chk.New("C06", "exploration", args)
 	c.Build(false)
-	c.Rule("contention workloads: maxConcurrentTasks in {1,2,3,4,6,8} (and NumCPU+4.. with a process that needs all slots and one that needs NumCPU+1), 2-4 processes with CoresPerTask drawn from 1..max, half of the command processes wrapped through Prepend, about 3*max simultaneously ready tasks of 15-60 ms (commands and Go functions), skipped tasks mixed in, an optional streaming producer/consumer pair, one scenario with commands whose work is done by a helper outliving them, one long-wait scenario (a task waiting > 10 s for a slot), a process with Spawn = false in every third workload, partial runs (RunTo / RunToProcs / RunToRegex over a five-step chain with limits 1-2), 100-140 tasks of a 2-core process in flight at once, workflows made with NewWorkflowCustomLogFile and limits 1-3 whose last process has no out-ports (the driver), two workflow objects of one name with different limits in one program, SCIPIPE_BUFSIZE smaller than CoresPerTask, a multi-core task consuming a joined sub-stream while other tasks keep the slots busy; also workloads driven through the exported task API with a core count per task; oracles = (1) sweep line over the commands' own CLOCK_MONOTONIC start/end stamps weighted by CoresPerTask, (2) shadow slot counter updated under the hook mutex at acquisition/release, (3) porcupine linearizability of the Acquire(k)/Release(k) history against a sequential counting semaphore. distinct_nontrivial = runs whose observed weighted overlap reached max (real contention), distinct by (max, cores mix, interleaving signature)")
+	c.Rule("[multi-core sources] processes without in-ports (one task each) asking for all or nearly all slots beside a chain of one-core tasks; [killed command] a 2-core command whose shell is killed by SIGKILL / SIGTERM while one-core tasks are queued at limit 2: judged on the command intervals alone, whatever the exit status; contention workloads: maxConcurrentTasks in {1,2,3,4,6,8} (and NumCPU+4.. with a process that needs all slots and one that needs NumCPU+1), 2-4 processes with CoresPerTask drawn from 1..max, half of the command processes wrapped through Prepend, about 3*max simultaneously ready tasks of 15-60 ms (commands and Go functions), skipped tasks mixed in, an optional streaming producer/consumer pair, one scenario with commands whose work is done by a helper outliving them, one long-wait scenario (a task waiting > 10 s for a slot), a process with Spawn = false in every third workload, partial runs (RunTo / RunToProcs / RunToRegex over a five-step chain with limits 1-2), 100-140 tasks of a 2-core process in flight at once, workflows made with NewWorkflowCustomLogFile and limits 1-3 whose last process has no out-ports (the driver), two workflow objects of one name with different limits in one program, SCIPIPE_BUFSIZE smaller than CoresPerTask, a multi-core task consuming a joined sub-stream while other tasks keep the slots busy; also workloads driven through the exported task API with a core count per task; oracles = (1) sweep line over the commands' own CLOCK_MONOTONIC start/end stamps weighted by CoresPerTask, (2) shadow slot counter updated under the hook mutex at acquisition/release, (3) porcupine linearizability of the Acquire(k)/Release(k) history against a sequential counting semaphore. distinct_nontrivial = runs whose observed weighted overlap reached max (real contention), distinct by (max, cores mix, interleaving signature)")
 	c.Assume("a command's [start,end] interval lies inside its task's slot-holding interval, so the weighted overlap is a lower bound of slot usage (sound)", "CoresPerTask <= maxConcurrentTasks")
 	jobs := slotWorkloads(c, "c06", c.Pick(48, 500))
 	// long-wait scenario: three tasks of ~10.6 s on 2 slots, so that one task waits > 10 s for its slot
@@ -226,11 +226,66 @@ func c06(args []string) {
 		bh := vproto.Behaviours{"BUSY": {"sleep": "120"}, "MERGE": {"sleep": "500"}}
 		jobs = append(jobs, &slotJob{s, bh, Cfg{Buf: []int{128, 1}[r%2], Procs: 4}, "joined-sub-stream-consumer"})
 	}
+	// multi-core processes without any in-port (simulations, downloads: one task each) beside a chain of one-core tasks
+	for r := 0; r < c.Pick(2, 6); r++ {
+		max := []int{2, 3, 4}[r%3]
+		in, o1 := []spec.PortDecl{{Name: "in"}}, []spec.PortDecl{{Name: "out"}}
+		s := &spec.Spec{Name: fmt.Sprintf("multicoresource%d", r), MaxTasks: max, Sources: map[string]string{}}
+		src := &spec.Proc{Name: "src", Kind: spec.KFileSource}
+		for k := 0; k < 6; k++ {
+			f := fmt.Sprintf("m%02d.txt", k)
+			src.Files = append(src.Files, f)
+			s.Sources[f] = f + "\n"
+		}
+		s.Procs = append(s.Procs, src, &spec.Proc{Name: "work", Kind: spec.KCmd, Cmd: spec.BuildCmd("work", in, o1, nil, nil, map[string]string{"sleep": "120"})},
+			&spec.Proc{Name: "sim1", Kind: spec.KCmd, Cores: max, Cmd: spec.BuildCmd("sim1", nil, o1, nil, nil, map[string]string{"sleep": "300"})},
+			&spec.Proc{Name: "sim2", Kind: []string{spec.KCmd, spec.KGoFunc}[r%2], Cores: max - r%2, Cmd: spec.BuildCmd("sim2", nil, o1, nil, nil, map[string]string{"sleep": "300"})})
+		s.Conns = append(s.Conns, &spec.Conn{From: "src.out", To: "work.in"})
+		jobs = append(jobs, &slotJob{s, nil, Cfg{Buf: 128, Procs: 4, NoHooks: r%2 == 1}, "multi-core-source"})
+	}
+	// a command whose shell is killed by a signal while the pool is saturated and one-core tasks are queued: whatever the
+	// library does about the kill (the unchanged one stops the workflow), no command runs outside the limit
+	for r := 0; r < c.Pick(2, 4); r++ {
+		in, o1 := []spec.PortDecl{{Name: "in"}}, []spec.PortDecl{{Name: "out"}}
+		s := &spec.Spec{Name: fmt.Sprintf("killedcommand%d", r), MaxTasks: 2, Sources: map[string]string{"big.txt": "big\n"}}
+		src := &spec.Proc{Name: "src", Kind: spec.KFileSource}
+		for k := 0; k < 8; k++ {
+			f := fmt.Sprintf("k%02d.txt", k)
+			src.Files = append(src.Files, f)
+			s.Sources[f] = f + "\n"
+		}
+		s.Procs = append(s.Procs, src, &spec.Proc{Name: "bsrc", Kind: spec.KFileSource, Files: []string{"big.txt"}},
+			&spec.Proc{Name: "late", Kind: spec.KRecorder, DelayMS: 300},
+			&spec.Proc{Name: "work", Kind: spec.KCmd, Cmd: spec.BuildCmd("work", in, o1, nil, nil, map[string]string{"sleep": "900"})},
+			&spec.Proc{Name: "big", Kind: spec.KCmd, Cores: 2, Cmd: spec.BuildCmd("big", in, o1, nil, nil, map[string]string{"sleep": "500", "fail": []string{"sigkill-shell", "sigterm-shell"}[r%2]})})
+		s.Conns = append(s.Conns, &spec.Conn{From: "src.out", To: "late.in"}, &spec.Conn{From: "late.out", To: "work.in"}, &spec.Conn{From: "bsrc.out", To: "big.in"})
+		jobs = append(jobs, &slotJob{s, nil, Cfg{Buf: 128, Procs: 4, NoHooks: true}, "killed-command"})
+	}
 	run.Parallel(len(jobs), func(i int) {
 		j := jobs[i]
 		root := c.CaseDir()
 		defer c.Drop(root)
 		res := execSpec(c, root, j.s, j.cfg, j.bh, false, 0)
+		if j.label == "killed-command" {
+			ov, wit, n := mon.Overlap(res.Trace, coresOfSpec(j.s))
+			c.Count("command_intervals", n)
+			if ov > j.s.MaxTasks {
+				c.Violation("overlap-exceeds-max", fmt.Sprintf("after a command was killed by a signal: commands with CoresPerTask sum %d executed simultaneously, maxConcurrentTasks=%d: %v (exit %d)", ov, j.s.MaxTasks, wit, res.Exit),
+					map[string]interface{}{"spec": j.s, "cfg": j.cfg, "witness": wit, "overlap": ov})
+				return
+			}
+			if res.Hang != "" && !strings.HasPrefix(res.Hang, "deadlock") {
+				c.Inconclusive(res.Hang)
+				return
+			}
+			if n == 0 {
+				c.Inconclusive("killed-command: no command interval observed")
+				return
+			}
+			c.Max(fmt.Sprintf("max_overlap_seen_at_max_%d", j.s.MaxTasks), ov)
+			c.Nontrivial(fmt.Sprintf("killedcommand|%d|exit%v", i, res.Exit != 0))
+			return
+		}
 		if res.Hang != "" {
 			if ov, wit, _ := mon.Overlap(res.Trace, coresOfSpec(j.s)); ov > j.s.MaxTasks {
 				c.Violation("overlap-exceeds-max", fmt.Sprintf("commands with CoresPerTask sum %d executed simultaneously, maxConcurrentTasks=%d: %v (the run then hung: %s)", ov, j.s.MaxTasks, wit, res.Hang),
